@@ -32,7 +32,9 @@ RULE = ("one case = one round: k goroutines (quick 4, thorough 8) started behind
         "same workload with identical contents, random mix. Every goroutine's digest is compared with the digest of "
         "the same workload run alone. distinct_nontrivial = distinct (GOMAXPROCS, workload#instance per goroutine) "
         "assignments; every round is non-trivial (>= 2 goroutines working concurrently). When the obligation is broken the "
-        "workloads of the package named by the non-benign inventory entry run first, alone (batch race-directed).")
+        "workloads of the package named by the non-benign inventory entry run first, alone (batches cold-directed, race-directed). "
+        "`cold` cases: the harness re-executes itself so that each workload is the FIRST thing a fresh process does (k goroutines "
+        "behind the barrier, reference digests only afterwards): first-use races of lazily initialised package-level state exist only then.")
 
 ASSUMPTIONS = [
     "MODELLED, NOT VERIFIED: an operation's footprint is its receiver's reachable heap, its arguments and the listed "
@@ -54,7 +56,7 @@ ALL_WL = ["hashtables", "ordered", "sets", "tries", "heaps", "sorts", "first-fol
 PKG_WL = {
     "trie": ["tries"], "symboltable": ["hashtables", "ordered", "helpers"], "set": ["sets", "first-follow"],
     "heap": ["heaps"], "sort": ["sorts"], "radixsort": ["sorts"], "unionfind": ["sorts"], "list": ["misc", "slr"],
-    "graph": ["misc"], "lexer/input": ["misc"], "lexer": ["misc", "predictive", "slr"], "dot": ["misc", "automata", "heaps"],
+    "graph": ["misc"], "lexer/input": ["misc"], "lexer": ["misc", "predictive", "slr"], "dot": ["heaps", "tries", "ordered", "automata", "misc", "slr", "predictive"],
     "hash": ["helpers", "hashtables", "first-follow", "automata"], "automata": ["automata", "helpers"],
     "grammar": ["first-follow", "transforms", "helpers", "predictive", "slr"], "errors": ["first-follow", "slr", "predictive"],
     "parser": ["predictive", "slr", "lalr", "lr1"], "parser/predictive": ["predictive"], "parser/lr": ["slr", "lalr", "lr1", "helpers"],
@@ -199,15 +201,16 @@ def _failing(rc, out, err):
 def _last_case(out):
     """The failing round: one with DIFF/HANG results, else the round that was running when the process stopped."""
     lines = out.split("\n")
-    bad = [l for l in lines if l.startswith("race ") and ("DIFF" in l or "HANG" in l)]
+    bad = [l for l in lines if (l.startswith("race ") or l.startswith("cold ")) and ("DIFF" in l or "HANG" in l)]
     if bad:
         return bad[-1]
-    started = [l[8:].replace(" -> ok", "") for l in lines if l.startswith("# START race ")]
+    started = [l[8:].replace(" -> ok", "") for l in lines if l.startswith("# START race ") or l.startswith("# START cold ")]
     return started[-1] if started else ""
 
 
 def _shrink(exe, case, err):
-    """Smallest reproduction: two goroutines running ONE workload each on own instances, else the pair, else the round."""
+    """Smallest reproduction: two goroutines running ONE workload each on own instances, else the pair, else the round.
+    A `cold` case (first round of a fresh process) is reproduced by fresh processes, too."""
     wls = []
     for part in case.split("|")[1:]:
         f = part.split("->")[0].split()
@@ -216,8 +219,13 @@ def _shrink(exe, case, err):
     m = re.search(r"procs=(\d+)", case)
     procs = m.group(1) if m else "4"
     d = os.path.join(vlib.BUILD, "run" + vlib.repo_tag())
-    cands = ["race procs=%s k=2 rounds=6 | wl %s | wl %s" % (procs, w, w) for w in wls]
-    cands += ["race procs=%s k=2 rounds=6 | wl %s | wl %s" % (procs, a, b) for i, a in enumerate(wls) for b in wls[i + 1:]]
+    if case.startswith("cold"):
+        cands = ["cold procs=%s k=2 rounds=8 | wl %s" % (procs, w) for w in wls]
+        fallback = re.sub(r"rounds=\d+", "rounds=8", case)
+    else:
+        cands = ["race procs=%s k=2 rounds=6 | wl %s | wl %s" % (procs, w, w) for w in wls]
+        cands += ["race procs=%s k=2 rounds=6 | wl %s | wl %s" % (procs, a, b) for i, a in enumerate(wls) for b in wls[i + 1:]]
+        fallback = case
     for n, c in enumerate(cands[:24]):
         cp = os.path.join(d, "C20-shrink-%d.case" % os.getpid())
         open(cp, "w").write(c + "\n")
@@ -227,7 +235,7 @@ def _shrink(exe, case, err):
                 os.remove(cp)
                 return c, e2 or err
         os.remove(cp)
-    return case, err
+    return fallback, err
 
 
 def main(run):
@@ -264,19 +272,26 @@ def main(run):
     batches = []
     for cf in ([] if os.environ.get("VERIF_C20_NO_CORPUS") else sorted(glob.glob(os.path.join(vlib.ROOT, "corpus", PROP, "*.case")))):  # (env: development only, to calibrate the generated search alone)
         batches.append(("corpus-" + os.path.basename(cf)[:-5], "--replay " + cf, 600))
+    # Two kinds of search: `cold*` = every workload as the FIRST thing of a fresh process (k goroutines behind the barrier;
+    # lazy first-use initialisation of package-level state races only then), `race*` = one long-lived process, many rounds.
+    dw = [] if proof_ok else _directed_workloads(bad_globals)
     if tier == "thorough":
-        if not proof_ok and _directed_workloads(bad_globals):
-            batches.append(("race-directed", "-mode race -tier thorough -budget 120 -wl %s" % ",".join(_directed_workloads(bad_globals)), 900))
-        batches.append(("race", "-mode race -tier thorough -budget 420", 1200))
+        if dw:
+            batches.append(("cold-directed", "-mode coldsweep -reps 12 -budget 90 -procs 2,4,16 -k 8 -wl %s" % ",".join(dw), 600))
+            batches.append(("race-directed", "-mode race -tier thorough -budget 120 -wl %s" % ",".join(dw), 900))
+        batches.append(("cold", "-mode coldsweep -reps 6 -budget 120 -procs 2,4,16 -k 8", 900))
+        batches.append(("race", "-mode race -tier thorough -budget 360", 1200))
     elif proof_ok:
-        batches.append(("race", "-mode race -tier quick -budget 24", 600))
+        batches.append(("cold", "-mode coldsweep -reps 1 -budget 12 -procs 4,16,2", 300))
+        batches.append(("race", "-mode race -tier quick -budget 16", 600))
     else:
         # A broken obligation buys a longer search for the schedule that exhibits it, and directs it: the non-benign
-        # entries name their package, so the workloads of that package run first, alone, with all the rounds.
-        dw = _directed_workloads(bad_globals)
+        # entries name their package, so the workloads of that package run first, alone.
         if dw:
-            batches.append(("race-directed", "-mode race -tier quick -budget 35 -wl %s" % ",".join(dw), 600))
-        batches.append(("race", "-mode race -tier quick -budget %d" % (45 if dw else 75), 600))
+            batches.append(("cold-directed", "-mode coldsweep -reps 4 -budget 20 -procs 4,16,2 -wl %s" % ",".join(dw), 300))
+            batches.append(("race-directed", "-mode race -tier quick -budget 25 -wl %s" % ",".join(dw), 600))
+        batches.append(("cold", "-mode coldsweep -reps 2 -budget 20 -procs 4,16,2", 300))
+        batches.append(("race", "-mode race -tier quick -budget %d" % (30 if dw else 60), 600))
     evals = nontriv = 0
     dist, samples = {}, []
     found = False
@@ -289,7 +304,7 @@ def main(run):
         for k, v in stats.items():
             if isinstance(v, int):
                 dist[k] = max(dist.get(k, 0), v) if k.startswith("max_") else dist.get(k, 0) + v
-        samples += [l[:160] for l in out.split("\n") if l.startswith("race ")][:2]
+        samples += [l[:160] for l in out.split("\n") if l.startswith("race ") or l.startswith("cold ")][:2]
         if "# UNSTABLE" in out:
             print("BROKEN-CHECK property=C20: a workload's sequential digest is not reproducible: %s"
                   % [l for l in out.split("\n") if l.startswith("# UNSTABLE")][:3], flush=True)
@@ -303,7 +318,7 @@ def main(run):
             return 2
         case = _last_case(out)
         if tag.startswith("corpus-") and not case:
-            case = ([l for l in open(args.split()[-1]).read().split("\n") if l.startswith("race ")] or [""])[0]
+            case = ([l for l in open(args.split()[-1]).read().split("\n") if l.startswith("race ") or l.startswith("cold ")] or [""])[0]
         case, err2 = _shrink(exe, case, err)
         reps = _race_reports(err2) or _race_reports(err)
         diffs = [l[2:] for l in out.split("\n") if l.startswith("# DIFF")][:5]
